@@ -104,6 +104,10 @@ func EvAdd1Sync(
 func EvAddSync(
 	ctx context.Context, e *am.Event, mach am.Api, states S, args ...am.A,
 ) bool {
+	// a nil ctx never expires
+	if ctx == nil {
+		ctx = context.Background()
+	}
 	res := mach.EvAdd(e, states, am.OptArgs(args))
 	// fmt.Printf("wait on %d\n", res)
 	switch res {
@@ -203,6 +207,10 @@ func EvRemove1Sync(
 func EvRemoveSync(
 	ctx context.Context, e *am.Event, mach am.Api, states S, args ...am.A,
 ) bool {
+	// a nil ctx never expires
+	if ctx == nil {
+		ctx = context.Background()
+	}
 	res := mach.EvRemove(e, states, am.OptArgs(args))
 	switch res {
 	case am.Executed:
